@@ -116,6 +116,18 @@ func (m *Machine) intBin(op token.Token, a, b Int, signed bool) Val {
 			return Int{W: a.W, S: "((_ int2bv " + fmt.Sprint(a.W) + ") " + n + ")", N: n}
 		}
 	}
+	if a.S != "" && a.S == b.S {
+		switch op {
+		case token.EQL, token.LEQ, token.GEQ:
+			return CB(true)
+		case token.NEQ, token.LSS, token.GTR:
+			return CB(false)
+		case token.SUB, token.XOR:
+			return CI(a.W, 0)
+		case token.AND, token.OR:
+			return a
+		}
+	}
 	// light algebraic simplification
 	switch op {
 	case token.ADD, token.OR, token.XOR:
